@@ -94,3 +94,20 @@ def accept {D} (validate : List D → Bool) (files : List (File D)) : Bool :=
   !(files.any (fun f => f.kind == .other)) && validate (merged files)
 
 end Genq.Files
+
+namespace Genq.Files
+
+/-! ### genqlient_directive.go parsePrecedingComment: the upward scan -/
+
+def isCommentLine (l : Str) : Bool :=
+  match trimLeft l with
+  | '#' :: _ => true
+  | _ => false
+
+/-- `above` = the source lines above the node, nearest first; the scan collects the contiguous
+    block of comment lines (directive lines are among them) and stops at the first other line -/
+def scanUp : List Str → List Str
+  | [] => []
+  | l :: rest => if isCommentLine l then l :: scanUp rest else []
+
+end Genq.Files
